@@ -47,6 +47,8 @@ class Scen(CompScenario):
             shape = data.StructLayout({f"f{k}": (signed(w) if sg else unsigned(w)) for k, (w, sg) in enumerate(c["struct"])})
         else:
             shape = data.ArrayLayout(c["width"], c["elems"]) if c["elems"] else c["width"]
+            if c.get("plain_signed"):  # a plain signed row: what read returns has to keep the shape (seeded change C22-5)
+                shape = signed(c["width"])
         # memory_type: not passed / the default type passed explicitly / a thin subclass of the ideal memory that
         # records every instantiation and comes with its own initial content (the bank passes init=[])
         self.memtype = c.get("memtype", "default")
@@ -207,6 +209,14 @@ class Scen(CompScenario):
             a = stim.get(f"rd{i}.i.addr", 0)
             self.premise(a < self.depth, f"read {i}: address {a} outside depth {self.depth}")
             got, want = self.pack(obs, self.rleaves[i]), mem[a]
+            if self.cfg.get("plain_signed") and len(self.rleaves[i]) == 1:
+                raw, w = obs.get(self.rleaves[i][0], 0), self.cfg["width"]
+                want_s = want - (1 << w) if want >> (w - 1) else want
+                if want_s < 0:
+                    self.hit("negative_value_read_from_signed_row")
+                self.expect(raw == want_s, "read-data-mismatch",
+                            f"read[{i}] of row {a} (shape signed({w})) returned {raw}, the row holds {want_s}",
+                            port=f"rd{i}", written_now=a in writes, written_prev=a in self.prev_writes, got=raw, want=want_s)
             self.expect(got == want, "read-data-mismatch",
                         f"read[{i}] of row {a} returned {got}, latest completed writes left {want} "
                         f"(row written this cycle: {a in writes}, previous cycle: {a in self.prev_writes})",
@@ -267,7 +277,7 @@ class Prop(PropBase):
                     "read_row_written_previous_cycle", "read_after_partial_write", "read_never_written_row",
                     "two_reads_of_one_row", "partial_write", "write_with_empty_mask", "row_rewritten_by_other_port",
                     "simultaneous_writes", "memory_type_recording_subclass", "memory_type_passed_explicitly",
-                    "read_preset_content_of_given_memory_type", "depth_one", "struct_shape", "read_by_port_ge3",
+                    "read_preset_content_of_given_memory_type", "depth_one", "struct_shape", "negative_value_read_from_signed_row", "read_by_port_ge3",
                     "write_by_port_ge3"]
     real = ["transactron.lib.storage.AsyncMemoryBank", "amaranth.lib.memory.Memory (comb read ports)",
             "transactron.lib.adapters.AdapterTrans", "TransactionManager + scheduler", "amaranth pysim"]
@@ -302,12 +312,15 @@ class Prop(PropBase):
         if memtype == "Recording":
             tw = width * (elems or 1)
             preset = [rng.getrandbits(tw) if rng.random() < 0.8 else 0 for _ in range(rng.choice([depth, rng.randint(1, depth)]))]
+        plain_signed = not struct and not elems and gran is None and width >= 2 and rng.random() < 0.35
+        if plain_signed:
+            memtype, preset = rng.choice(["default", "Memory"]), []
         cycles = rng.randint(60, 260 if big else 180)
         nr, nw = rng.choice(ports), rng.choice(ports)
         if nr + nw >= 5:  # many callers to simulate: shorter runs keep the batch time
             cycles = min(cycles, 120 if nr + nw < 7 else 90)
         return {"depth": depth, "width": width, "elems": elems, "struct": struct, "gran": gran, "nr": nr,
-                "nw": nw, "memtype": memtype, "preset": preset, "cycles": cycles,
+                "nw": nw, "memtype": memtype, "preset": preset, "cycles": cycles, "plain_signed": plain_signed,
                 "sched": rng.choice(["eager", "eager", "rr"]),
                 "plan": make_plan(rng, cycles, ["random", "random", "chase", "chase", "readonly", "writeonly", "idle"],
                                   min_len=5, max_len=30)}
@@ -327,7 +340,7 @@ class Prop(PropBase):
 
     def cfg_signature(self, cfg):
         return [cfg[k] for k in ("depth", "width", "elems", "gran", "nr", "nw", "sched")] + \
-            [cfg.get("struct"), cfg.get("memtype", "default")]
+            [cfg.get("struct"), cfg.get("memtype", "default"), bool(cfg.get("plain_signed"))]
 
     def shrink_cfg(self, cfg):
         if cfg["nr"] > 1:
